@@ -20,6 +20,8 @@ static inline void iora_ulock_unlock(iora_ulock *l)
 { IORA_ASSERT(l->owns && l->m->held, "LK2 unlock() on a lock that is owned"); l->m->held = 0; l->owns = 0; }
 static inline void iora_ulock_lock(iora_ulock *l)
 { IORA_ASSERT(!l->owns && !l->m->held, "LK1 lock() on a lock that is not owned"); l->m->held = 1; l->owns = 1; }
+/* unique_lock::release(): gives up ownership WITHOUT unlocking (the mutex stays locked) */
+static inline void iora_ulock_release(iora_ulock *l) { l->owns = 0; }
 static inline void iora_ulock_dtor(iora_ulock *l) { if (l->owns) { l->m->held = 0; l->owns = 0; } }
 
 /* condition variable: counts notifications (saturating, so that no ghost counter overflow obligation arises) */
